@@ -170,7 +170,7 @@ def tlc(module, cfg, workers=1, timeout=900, env=None, simulate=None, depth=None
     java = ["java", "-XX:+UseParallelGC", "-Xmx" + xmx, "-Xss64m"]
     if deque:
         java.append("-Dtlc2.tool.queue.IStateQueue=StateDeque")
-    cmd = java + ["-cp", JAR, "tlc2.TLC", "-workers", str(workers), "-metadir", meta, "-config", cfg]
+    cmd = java + ["-cp", JAR, "tlc2.TLC", "-workers", str(workers), "-metadir", meta, "-checkpoint", "0", "-config", cfg]
     if simulate:
         cmd += ["-simulate", "num=%d" % simulate]
     if depth:
